@@ -152,7 +152,7 @@ class Gen(object):
         ch = ["arith", "arith", "logic", "logic", "shift", "shift", "unary", "slice", "slice", "compose", "compose", "tst", "ext", "dup", "reassoc",
               "simp", "div"]
         if w == 1:
-            ch += ["cmp"] * 8 + ["bit", "eqbit", "eqbit", "notcmp", "notcmp"]
+            ch += ["cmp"] * 8 + ["bit", "eqbit", "eqbit", "notcmp", "notcmp", "twins", "twins"]
         if w % 2 == 0 and w // 2 >= 1:
             ch += ["pow"]
         ch += ["setpart", "setpart"] if w >= 2 else []
@@ -218,6 +218,15 @@ class Gen(object):
             w2 = r.choice(WIDTHS)
             gg = lambda: self.gen(w2, d - 1)
             return gg() + gg() + [[r.choice(["eq", "ne", "lt", "le", "gt", "ge", "lt", "ge", "ltu", "geu", "ltuh", "geuh"])]]
+        if c == "twins":
+            # (l o r) cmp (r o l) with a non-commutative o: the two sides have the same leaves and operator and
+            # differ only in the operand order (comparison shortcuts that identify expressions must tell them apart)
+            w2 = r.choice(WIDTHS)
+            dd = 0 if r.random() < 0.6 else d - 1
+            L, R = self.gen(w2, dd), self.gen(w2, dd)
+            o = r.choice(["shl", "shr", "asr", "div", "mod", "sub", "ror", "rol", "ltu", "geu", "lt", "ge"])
+            cp = lambda x: [list(i) for i in x]
+            return L + R + [[o]] + cp(R) + cp(L) + [[o]] + [[r.choice(["eq", "ne", "eq", "ne", "ltu", "geu"])]]
         if c == "notcmp":
             # ~(a o b): the not_cond rule; leaves are often plain registers so that boundary valuations make a == b
             w2 = r.choice(WIDTHS)
